@@ -392,6 +392,10 @@ def run_tables(pid, tier, seed):
     if extra:
         obw = vlib.proof_obligations(extra)
         cov["wyckoff_clause_i"] = {"obligations": obw["obligations"], "discharged": obw["discharged"], "failures": obw["failures"][:5]}
+        cov["obligations"] += obw["obligations"]
+        cov["discharged"] += obw["discharged"]
+        if obw["failures"]:
+            broken.append("clause (i), Wyckoff table theorems (Props/C16Wyckoff.lean) no longer check:\n  " + "\n  ".join(obw["failures"][:10]))
     else:
         cov["wyckoff_clause_i"] = "Moyo/Props/C16Wyckoff.lean not present: clause (i) is not counted here" if pid == "C16" else None
     if ob["failures"]:
@@ -466,6 +470,15 @@ def run_tables(pid, tier, seed):
         impl_fail = impl_oracle(pid, C, pg, impl_tables(allr + r2, alle + e2))
         cov["implementation_rows_failing"] = len(impl_fail)
     cov["wall_tables_s"] = round(time.time() - t0, 1)
+
+    # ---- clause (i): when something broke, evaluate the Wyckoff row checker natively for every Hall number
+    if pid == "C16" and broken and extra:
+        wreq = [f"wyckcheck {h}" for h in range(1, 531)]
+        wans = vlib.run_model(wreq)
+        for h, a in zip(range(1, 531), wans):
+            if a.strip() != "ok":
+                failing.append(("wyckoff-hall", h, a[:400], f"wyckcheck {h}"))
+        cov["wyckoff_hall_numbers_failing"] = len([f for f in failing if f[0] == "wyckoff-hall"])
 
     # ---- decide
     if failing:
